@@ -1,4 +1,6 @@
 
+val negb : bool -> bool
+
 type nat =
 | O
 | S of nat
@@ -20,6 +22,10 @@ val compOpp : comparison -> comparison
 
 val add : nat -> nat -> nat
 
+val mul : nat -> nat -> nat
+
+val sub : nat -> nat -> nat
+
 type positive =
 | XI of positive
 | XO of positive
@@ -33,6 +39,13 @@ type z =
 | Z0
 | Zpos of positive
 | Zneg of positive
+
+module Nat :
+ sig
+  val leb : nat -> nat -> bool
+
+  val min : nat -> nat -> nat
+ end
 
 module Pos :
  sig
@@ -69,6 +82,8 @@ module Coq_Pos :
 
   val mul : positive -> positive -> positive
 
+  val size_nat : positive -> nat
+
   val compare_cont : comparison -> positive -> positive -> comparison
 
   val compare : positive -> positive -> comparison
@@ -101,6 +116,8 @@ module N :
   val leb : n -> n -> bool
 
   val ltb : n -> n -> bool
+
+  val size_nat : n -> nat
 
   val pos_div_eucl : positive -> n -> n * n
 
@@ -156,13 +173,27 @@ module Z :
   val modulo : z -> z -> z
  end
 
+val nth_error : 'a1 list -> nat -> 'a1 option
+
 val concat : 'a1 list list -> 'a1 list
 
 val map : ('a1 -> 'a2) -> 'a1 list -> 'a2 list
 
+val fold_left : ('a1 -> 'a2 -> 'a1) -> 'a2 list -> 'a1 -> 'a1
+
 val forallb : ('a1 -> bool) -> 'a1 list -> bool
 
+val filter : ('a1 -> bool) -> 'a1 list -> 'a1 list
+
+val firstn : nat -> 'a1 list -> 'a1 list
+
+val skipn : nat -> 'a1 list -> 'a1 list
+
+val seq : nat -> nat -> nat list
+
 type byte = n
+
+val list_eqb : n list -> n list -> bool
 
 val escape_leader : n
 
@@ -171,6 +202,20 @@ val escape_base_json : (n list * n list) list
 val escape_all_chars : n list
 
 val escape_all_first_code : n
+
+val tunnel_uid_cut_if_longer : n
+
+val tunnel_uid_cut : n
+
+val tunnel_client_hello_fmt : n list
+
+val tunnel_server_hello_fmt : n list
+
+val tunnel_hello_read_size : n
+
+val tunnel_reply_read_size : n
+
+val tunnel_pump_bufsize : n
 
 val leader : byte
 
@@ -225,3 +270,218 @@ val escape_all_pairs : n list -> n -> n list list list
 val builtin_json : bool -> n list list list
 
 val builtin_table : bool -> table
+
+val dec_fuel : nat -> n -> n list -> n list
+
+val dec_N : n -> n list
+
+val dec_Z : z -> n list
+
+type farg =
+| FStr of n list
+| FInt of z
+
+val sprintf : n list -> farg list -> n list
+
+val cut_uid : n list -> n list
+
+val client_hello : n list -> z -> n list
+
+val server_hello : n list -> z -> n list
+
+val hello_matches : n list -> n list -> bool
+
+type pev =
+| PWrite of n list
+| PClose
+
+type src =
+| SrcInband
+| SrcConn of nat
+
+type hpc =
+| HRefused
+| HPending
+| HAccepted
+| HRead
+| HCompare of n list option
+| HReply
+| HCas
+| HPumpStart
+| HCloseListener
+| HDone
+
+type conn = { k_script : pev list; k_rx : n list; k_eof : bool; k_pc : 
+              hpc; k_first : n list option; k_tx : n list; k_closed : 
+              bool; k_won : bool; k_pump : bool }
+
+val k_first : conn -> n list option
+
+val k_tx : conn -> n list
+
+val k_closed : conn -> bool
+
+val k_won : conn -> bool
+
+val k_pump : conn -> bool
+
+val new_conn : pev list -> hpc -> conn
+
+val set_pc : hpc -> conn -> conn
+
+val set_closed : conn -> conn
+
+val set_rx : n list -> conn -> conn
+
+val upd : nat -> ('a1 -> 'a1) -> 'a1 list -> 'a1 list
+
+val peer_step : conn -> conn option
+
+type apc =
+| AAccept
+| ACheck of nat
+| ADone
+
+type actst =
+| ActWaiting
+| ActOk
+| ActErr
+
+type sstate = { s_conns : conn list; s_lis : bool; s_apc : apc;
+                s_tconn : nat option; s_tconnected : bool;
+                s_writer : nat option; s_act : actst;
+                s_inbuf : (src * n list) list; s_dropped : n list list }
+
+val s_conns : sstate -> conn list
+
+val s_lis : sstate -> bool
+
+val s_tconn : sstate -> nat option
+
+val s_tconnected : sstate -> bool
+
+val s_writer : sstate -> nat option
+
+val s_act : sstate -> actst
+
+val s_inbuf : sstate -> (src * n list) list
+
+val s_dropped : sstate -> n list list
+
+val s_init : sstate
+
+val with_conns : sstate -> conn list -> sstate
+
+type slabel =
+| LConnect of pev list
+| LPeer of nat
+| LAccept of nat
+| LAcceptErr
+| LCheck
+| LHandler of nat
+| LWriteFail of nat
+| LPump of nat * nat
+| LInband of n list
+| LAct of bool
+| LCleanup
+
+val add_received :
+  bool -> src -> n list -> (src * n list) list -> n list list -> (src * n
+  list) list * n list list
+
+val sstep : n list -> n list -> sstate -> slabel -> sstate option
+
+type kpc =
+| KCall
+| KChk
+| KWrite
+| KRead
+| KCmp of n list option
+| KSend
+| KDone
+
+type spc =
+| SSelect
+| SStore
+| SPump
+| SDone
+
+type mpc =
+| MWait
+| MLoad
+| MSent of bool
+
+type cstate = { c_conn : conn option; c_kpc : kpc; c_chan : bool option;
+                c_spc : spc; c_timer : bool; c_timedout : bool;
+                c_wg_done : bool; c_mpc : mpc; c_tconn : bool;
+                c_tconnected : bool; c_writer_tunnel : bool; c_pump : 
+                bool; c_inbuf : (src * n list) list; c_dropped : n list list }
+
+val c_init : cstate
+
+type clabel =
+| CConnector of pev list option
+| CK of bool * bool
+| CPeer
+| CTimer
+| CSelChan
+| CSelTimer
+| CS
+| CMain
+| CPumpRead of nat
+| CInband of n list
+| CCleanup
+
+val cset : cstate -> conn option -> kpc -> bool option -> cstate
+
+val cgive_up : cstate -> conn -> cstate
+
+val cstep : n list -> n list -> cstate -> clabel -> cstate option
+
+val first_some : (nat -> 'a1 option) -> nat list -> 'a1 option
+
+val pending_idx : sstate -> nat list
+
+val sched_once : n list -> n list -> sstate -> sstate option
+
+val settle_fuel : sstate -> nat
+
+type cobs =
+| ObsRefused
+| ObsOpenSilent
+| ObsClosedSilent
+| ObsReplied of n list * bool
+
+val observe : conn -> cobs
+
+type coutcome =
+| CoNil
+| CoConn of bool * bool * n list option
+
+val client_labels : coutcome -> clabel list
+
+val crun_skip : n list -> n list -> cstate -> clabel list -> cstate
+
+val client_decides : n list -> z -> coutcome -> bool option
+
+type rev =
+| RConnect
+| RWrite of nat * n list
+| RClose of nat
+| RInband of n list
+| RAct of bool
+| RCleanup
+
+val pump_all : n list -> n list -> sstate -> nat -> sstate option
+
+val rsched_once : n list -> n list -> sstate -> sstate option
+
+val rsettle : nat -> n list -> n list -> sstate -> sstate
+
+val push_script : nat -> pev -> sstate -> sstate
+
+val or_same : sstate -> sstate option -> sstate
+
+val rapply : n list -> n list -> sstate -> rev -> sstate
+
+val rreplay : n list -> z -> rev list -> sstate
